@@ -110,8 +110,8 @@ Proof.
 Qed.
 Print Assumptions C29_effective_weight.
 
-(** ---- 5. BM25 (tfScore, the sum over the term frequencies, boostScore; term-frequency extraction is
-    not modelled): every term contributes a value in [0, k+1], so with a line/file length ratio L >= 0,
+(** ---- 5. BM25 (tfScore, the sum over the term frequencies, boostScore; for the term-frequency extraction
+    see 6d): every term contributes a value in [0, k+1], so with a line/file length ratio L >= 0,
     non-negative term frequencies and boost weights <= W the score lies in [0, (k+1) * #terms * W]:
     finite.  In exact arithmetic the order of the terms is irrelevant — the run-to-run differences
     of the implementation (repaired in /repo e48ad27) were binary64 non-associativity only. *)
